@@ -208,13 +208,12 @@ theorem progRunX_eq_stackWeights (p : ProgX K) (path : List Nat) (d : Nat) (w : 
           | none => rfl
           | some sel =>
             simp only
-            cases hwg : p.wgh with
-            | equally =>
-              cases sel with
+            cases hwx : weigherX p d sel with
+            | error e => rfl
+            | ok r =>
+              cases r with
               | none => rfl
-              | some l => simp only; rw [map_bind'']; rfl
-            | specified tbl =>
-              cases sel <;> (simp only; rw [map_bind'']; rfl)
+              | some ws0 => show _ = ((postSteps cfg path p.post (w, ws0)).map some).bind (finishX cfg p path w); rw [map_bind'']; rfl
 
 /-! ### the countdown -/
 
